@@ -38,6 +38,45 @@ class StrRepr(str):
         return "<em>sr</em>"
 
 
+class _Expr:
+    """What an overloaded comparison returns (a query-builder column, a symbolic expression)."""
+
+    def __init__(self, truth):
+        self.truth = truth
+
+    def __bool__(self):
+        if self.truth is None:
+            raise TypeError("the truth value of an expression is ambiguous")
+        return self.truth
+
+
+class SymbolicRepr:
+    """Self-rendering value whose == builds an expression instead of answering (truthy, falsy, or refusing to be a bool)."""
+
+    def __init__(self, truth):
+        self.truth = truth
+
+    def __eq__(self, other):
+        return _Expr(self.truth)
+
+    __hash__ = None
+
+    def _repr_html_(self):
+        return "<code>column</code>"
+
+
+class SymbolicTF(SymbolicRepr):
+    def tagify(self):
+        return ht.TagList("expanded column")
+
+
+class TupleComponent(tuple):
+    """A tuple subclass (a NamedTuple-style component) that can also expand itself: as a child it is a tuple - its items are the children."""
+
+    def tagify(self):
+        return ht.TagList("never asked: a tuple is spliced")
+
+
 class ReprRaises:
     def _repr_html_(self):
         raise ValueError("repr failed")
@@ -118,7 +157,7 @@ class LazyProxy:
 
 
 # ------------------------------------------------------------------ program generation
-VALUE_KINDS = ["strrepr", "inst_repr", "inst_tagify", "inst_none", "none", "ellipsis", "text", "num", "tag", "taglist", "html", "dep", "meta", "tf", "obj", "tfobj", "list", "badlist", "bad", "reprraise", "emptystr", "wrapprev", "proxy"]
+VALUE_KINDS = ["strrepr", "inst_repr", "inst_tagify", "inst_none", "none", "ellipsis", "text", "num", "tag", "taglist", "html", "dep", "meta", "tf", "obj", "tfobj", "list", "badlist", "bad", "reprraise", "emptystr", "wrapprev", "proxy", "symrepr", "symtf", "tuplecomp"]
 
 
 def rand_value(rng):
@@ -146,7 +185,7 @@ def rand_value(rng):
     if k == "list":
         return {"k": "list", "t": rng.choice(["list", "tuple"]), "c": [{"k": "text", "s": "x"}, {"k": "none"}, {"k": "num", "v": 1}]}
     if k == "bad":
-        return {"k": "bad", "t": rng.choice(["object", "dict", "bytes", "set", "function", "type", "tagfunction", "boundmethod", "strclass", "fraction", "module", "generator"])}
+        return {"k": "bad", "t": rng.choice(["object", "dict", "bytes", "set", "function", "type", "tagfunction", "boundmethod", "strclass", "fraction", "module", "generator", "answers_everything", "no_rich_repr"])}
     if k == "badlist":
         # valid items followed by an invalid one: nothing may be appended
         return {"k": "list", "t": rng.choice(["list", "tuple"]), "c": [{"k": "text", "s": "v1"}, gen.TAG("i", ws=False), {"k": "bad", "t": "object"}, {"k": "text", "s": "v2"}]}
@@ -156,6 +195,8 @@ def rand_value(rng):
         return {"k": "strrepr", "s": "<em>sr</em>"}
     if k.startswith("inst_"):
         return {"k": "inst", "has": {"inst_repr": "repr", "inst_tagify": "tagify", "inst_none": None}[k]}
+    if k in ("symrepr", "symtf"):
+        return {"k": k, "truth": rng.choice([True, False, None])}
     return {"k": k}
 
 
@@ -261,6 +302,10 @@ class Run:
             v = ht.Tag("section", done[-1], "w") if done else ht.Tag("section", "w")
         elif vr["k"] == "proxy":
             v = LazyProxy()
+        elif vr["k"] in ("symrepr", "symtf"):
+            v = (SymbolicRepr if vr["k"] == "symrepr" else SymbolicTF)(vr.get("truth", True))
+        elif vr["k"] == "tuplecomp":
+            v = TupleComponent(("first item", ht.Tag("i", "second")))
         else:
             v = ReprRaises() if vr["k"] == "reprraise" else ... if vr["k"] == "ellipsis" else StrRepr("plain text of the str") if vr["k"] == "strrepr" else gen.build(vr)
         # ---- model
@@ -285,6 +330,12 @@ class Run:
                     expect_exc = TypeError
             elif k in ("bad", "proxy"):
                 expect_exc = TypeError
+            elif k == "symrepr":
+                add = [("HTML", "<code>column</code>")]
+            elif k == "symtf":
+                add = [v]
+            elif k == "tuplecomp":
+                add = list(v)
             else:  # text, num, tag, list/tuple/taglist, html, dep, meta, tf, tfobj: normal child rules
                 try:
                     add = F.flatten([v])
